@@ -13,12 +13,14 @@ package main
 
 import (
 	"fmt"
+	"io"
 	"net"
 	"net/netip"
 	"strconv"
 	"strings"
 
 	"github.com/irai/packet"
+	"github.com/irai/packet/fastlog"
 	"pvharness/lib"
 )
 
@@ -194,8 +196,15 @@ const modeS, modeA = "0a", "0b"
 
 var theRun *lib.Run
 
+var violCount = map[string]int{}
+
+// viol records a Go-side oracle violation (at most 3 per key per run; the rest is counted)
 func viol(key, desc string, kind string, a []string) {
-	theRun.Viol(key, desc, kind+" "+strings.Join(a, " "))
+	violCount[key]++
+	theRun.Stat("oracle."+key, 1)
+	if violCount[key] <= 3 {
+		theRun.Viol(key, desc, kind+" "+strings.Join(a, " "))
+	}
 }
 
 // ---------------------------------------------------------------- runners
@@ -485,6 +494,8 @@ func main() {
 	r := lib.Init()
 	defer r.Close()
 	theRun = r
+	fastlog.DefaultIOWriter = io.Discard // Session.Parse logs every online transition
+	packet.Logger.SetLevel(fastlog.LevelError)
 	rng := r.Rand()
 	r.Register("ether", runEther)
 	r.Register("ethpl", runEthPl)
@@ -493,13 +504,14 @@ func main() {
 	r.Register("udp", runUDP)
 	r.Register("udppl", runUDPPl)
 	r.Register("frame4", runFrame4)
+	registerMore(r)
 	if r.Replayed() {
 		return
 	}
 	g := &gen{r, rng}
-	n := 2500
+	n := 1500
 	if r.Thorough() {
-		n = 40000
+		n = 30000
 	}
 	for i := 0; i < n; i++ {
 		// EncodeEther alone
@@ -558,6 +570,7 @@ func main() {
 		pl = rng.Bytes(g.plenFor(c, 42))
 		r.Do("frame4", itoa(c), itoa(g.lenFor(c)), g.seed(), lib.Hex(g.mac()), lib.Hex(g.mac()), itoa(rng.Intn(256)),
 			lib.Hex(a4()), lib.Hex(a4()), itoa(g.port()), itoa(g.port()), lib.Hex(pl))
+		g.more(i)
 	}
 	r.Sample("frame4 64 0 7 001122334455 665544332211 64 c0a80001 c0a80002 68 67 aabbcc => 45-byte frame, DHCP4 class 10")
 }
